@@ -1,3 +1,4 @@
+mod config;
 mod dec;
 mod gen;
 mod pack;
@@ -31,9 +32,16 @@ fn main() {
             let mut run = Runner::new(&args);
             match fam.as_str() {
                 "trg" => gen::gen_trg(&mut run, seed, n),
+                "adc" => gen::gen_adc(&mut run, seed, n),
+                "pwb" => gen::gen_pwb(&mut run, seed, n, args.get("tier") == Some("thorough")),
+                "chunk" => gen::gen_chunk(&mut run, seed, n, args.get("tier") == Some("thorough")),
                 _ => panic!("unknown family {fam}"),
             }
             run.finish();
+        }
+        "config" => {
+            let v = config::config();
+            std::fs::write(args.req("out"), serde_json::to_string(&v).unwrap()).unwrap();
         }
         _ => {
             eprintln!("usage: vh decode|gen ...");
